@@ -1114,7 +1114,7 @@ MANIFEST = {
 
 def run(ctx):
     ctx.enumerate("launch", scenario_cases("core-race", QUICK_SCENARIOS), name="interleavings:core-race")
-    ctx.search("launch", cases(), quick=2500, thorough=8000)
+    ctx.search("launch", cases(), quick=2500, thorough=12000)
     if not ctx.quick():
         ctx.enumerate("launch", scenario_cases("core-race-caller-dir", QUICK_SCENARIOS),
                       name="interleavings:core-race-caller-dir")
